@@ -575,7 +575,6 @@ func (w *driveWorld) undo() {
 			w.lcBroken = true
 		} else {
 			w.lcH = newH
-			w.lcLossy = len(sv.td) > 0
 		}
 	}
 	w.stump = w.stumps[len(w.stumps)-1]
